@@ -168,6 +168,9 @@ def main(argv):
                     samples.append({'obligation': '%s/%s' % (u, it.name), 'source': '%s :: %s' % (spec.crate, spec.path),
                                     'contract': ' '.join(cl)[:400]})
     unstable = []
+    for u in units:
+        for iso in getattr(reports[u], 'isolated', []):
+            unstable.append('%s: failed in the whole-unit run, re-verified alone: %s' % (iso['function'], 'discharged' if iso['verified_in_isolation'] else 'fails'))
     for u, rep2 in second.items():
         if rep2.error:
             continue
